@@ -8,6 +8,8 @@ ALL = ["C%02d" % i for i in range(1, 21)]
 checks, na = [], []
 for pid in ALL:
     cfg = PROPS.get(pid)
+    if cfg and not cfg.get("unclaimed") and not os.path.exists(os.path.join(VERIF, "coq", "props", pid + ".v")):
+        cfg = dict(cfg, unclaimed="model and correspondence harness exist and run; the property theorems (coq/props/%s.v) are still being proved, so the check is not registered yet" % pid)
     if not cfg or cfg.get("unclaimed"):
         na.append({"property_id": pid, "reason": (cfg or {}).get("unclaimed", "check not built yet in this round (model/theorems under construction); see DESIGN.md section 6-" + pid)})
         continue
